@@ -394,6 +394,9 @@ def conforming(rng, nfuncs=None, depth=2, recursion=True):
     # main
     out = ["main:"]
     out.append("li a0, %d" % rng.randrange(0, 20))
+    early = rng.random() < 0.3      # a second exit on an error path whose number is loaded BEFORE the branch to it
+    if early:
+        out += ["li a7, 93", "bnez a0, fail_exit"]
     for callee in fns:          # every function is called at least once (else it is not a function)
         for a in range(1, callee.nargs):
             out.append("li a%d, %d" % (a, rng.randrange(0, 9)))
@@ -404,6 +407,8 @@ def conforming(rng, nfuncs=None, depth=2, recursion=True):
     out += ["li a7, 1", "ecall"]          # print a0: the last value computed is used
     out.append("li a7, 10")
     out.append("ecall")
+    if early:
+        out += ["fail_exit:", "li a0, 1", "ecall"]      # exit(1) with the a7 = 93 set at the top
     lines += out
     for fn in fns:
         out = ["%s:" % fn.name]
@@ -596,6 +601,19 @@ def random_flow(rng, n=None):
             if rng.random() < 0.8:
                 lines.append(rng.choice(["ret", "li a7, 10", "addi a0, a0, 1", "ecall"]))
     return "\n".join(lines) + "\n"
+
+
+def sp_switch_prog(rng):
+    """a function that switches sp to a value held in another register (a private stack, a frame pointer), stores
+    through it and switches back: what is known about the frame must not survive an sp of unknown position"""
+    k = rng.choice([8, 12, 16, 20])
+    slot = rng.choice([0, 4, 8])
+    src = rng.choice(["s1", "s2", "t3", "a3"])
+    L = ["main:", "addi %s, sp, -%d" % (src, rng.choice([k - slot, k, 4, 64])), "li a0, 3", "jal foo", "li a7, 10", "ecall",
+         "foo:", "addi sp, sp, -%d" % k, "li t0, %d" % rng.choice([1, 5, 10]), "sw t0, %d(sp)" % slot, "addi t1, sp, 0",
+         rng.choice(["addi sp, %s, 0", "add sp, %s, zero", "mv sp, %s"]) % src,
+         "sw zero, %d(sp)" % rng.choice([0, 4, slot]), "addi sp, t1, 0", "lw a7, %d(sp)" % slot, "ecall", "addi sp, sp, %d" % k, "ret"]
+    return "\n".join(L) + "\n"
 
 
 def stack_fuzz(rng):
